@@ -243,6 +243,9 @@ def run_case(case, seed):
                 bad(f"exc:{type(e).__name__}", {"msg": str(e)[:300], "tol": tol})
                 continue
             X = x if x.ndim == 2 else x[:, None]
+            if not np.all(np.isfinite(X)):  # NaN compares False with every threshold below
+                bad("nonfinite", {"tol": tol}, f",tol={tol}")
+                continue
             s = calls - 1
             thr = tol * (1 + np.where(bn > 0, r0n / np.where(bn > 0, bn, 1), 0.0))
             rel = lambda Xk: np.where(bn > 0, np.linalg.norm(B - M @ Xk, axis=0) / np.where(bn > 0, bn, 1), 0.0)  # noqa: E731
